@@ -185,11 +185,11 @@ func genTxSpec(t *rapid.T, chain ck.ChainCfg, mutation string) TxSpec {
 		spec.Signers = append(spec.Signers[:at], append([]SignerSpec{com}, spec.Signers[at:]...)...)
 	case "notary_sender":
 		spec.Signers = []SignerSpec{{Kind: "notary"}, {Kind: "sig", Key: rapid.IntRange(0, 1).Draw(t, "depositor"), Scope: rapid.IntRange(0, 7).Draw(t, "dscope")}}
-		spec.Attrs = append(spec.Attrs, AttrSpec{Kind: "notary", N: rapid.IntRange(0, 3).Draw(t, "nkeys")})
+		spec.Attrs = append(spec.Attrs, AttrSpec{Kind: "notary", N: rapid.SampledFrom([]int{0, 1, 2, 3, 3, 16, 127, 128, 254, 255}).Draw(t, "nkeys")})
 		spec.SysFee = min(spec.SysFee, 1_0000_0000)
 	case "notary_cosigner":
 		spec.Signers = append(spec.Signers, SignerSpec{Kind: "notary"})
-		spec.Attrs = append(spec.Attrs, AttrSpec{Kind: "notary", N: rapid.IntRange(0, 3).Draw(t, "nkeys")})
+		spec.Attrs = append(spec.Attrs, AttrSpec{Kind: "notary", N: rapid.SampledFrom([]int{0, 1, 2, 3, 3, 16, 127, 128, 254, 255}).Draw(t, "nkeys")})
 	}
 	// Mutations that act on a key-based witness need one.
 	if mutation == "badsig" || mutation == "permute" {
